@@ -39,6 +39,22 @@ fn param_ty(param_ty: &ast::TypeName) -> syn::Type {
     }
 }
 
+/// The FFI-safe type a callback or trait method hands back to Rust, and the conversion into the type written in the bridge
+fn callback_return_ty(ret_ty: &ast::TypeName) -> (syn::Type, proc_macro2::TokenStream) {
+    match ret_ty {
+        ast::TypeName::Option(inner, _) if !ret_ty.is_ffi_safe() => {
+            let conversion = if inner.is_ffi_safe() {
+                quote!(.into())
+            } else {
+                let inner_ty = inner.ffi_safe_version().to_syn();
+                quote!(.into_option().map(|v: #inner_ty| v.into()))
+            };
+            (ret_ty.ffi_safe_version().to_syn(), conversion)
+        }
+        _ => (ret_ty.to_syn(), quote!()),
+    }
+}
+
 /// Conversion of an argument Rust passes *to* a callback or trait method, the opposite direction of [`param_conversion`]
 fn callback_arg_conversion(
     name: &ast::Ident,
@@ -113,7 +129,7 @@ fn param_conversion(
                 cb_params_and_types_list.push(quote!(#param_ident: #orig_type));
                 cb_param_list.push(param_ident);
             }
-            let cb_ret_type = out_type.to_syn();
+            let (cb_ret_type, cb_ret_conversion) = callback_return_ty(out_type);
 
             let mutability = match mutability {
                 ast::Mutability::Immutable => quote!(const),
@@ -124,7 +140,7 @@ fn param_conversion(
                     #(#all_params_conversion)*
                     let _ = &#cb_wrap_ident; // Force the lambda to capture the full object, see https://doc.rust-lang.org/edition-guide/rust-2021/disjoint-capture-in-closures.html
                     std::mem::transmute::<unsafe extern "C" fn (*mut c_void, ...) -> #cb_ret_type, unsafe extern "C" fn (*#mutability c_void, #(#cb_arg_type_list,)*) -> #cb_ret_type>
-                        (#cb_wrap_ident.run_callback)(#cb_wrap_ident.data, #(#cb_param_list,)*)
+                        (#cb_wrap_ident.run_callback)(#cb_wrap_ident.data, #(#cb_param_list,)*) #cb_ret_conversion
                 };
             };
             Some(parse2(tokens).unwrap())
@@ -146,7 +162,7 @@ fn gen_custom_vtable(custom_trait: &ast::Trait, custom_trait_vtable_type: &Ident
         let method_name = Ident::new(&format!("run_{}_callback", m.name), Span::call_site());
         let return_tokens = match &m.output_type {
             Some(ret_ty) => {
-                let conv_ret_ty = ret_ty.to_syn();
+                let (conv_ret_ty, _) = callback_return_ty(ret_ty);
                 quote!( -> #conv_ret_ty)
             }
             None => {
@@ -196,7 +212,8 @@ fn gen_custom_trait_impl(custom_trait: &ast::Trait, custom_trait_struct_name: &I
         let (return_tokens, end_token) = match &m.output_type {
             Some(ret_ty) => {
                 let conv_ret_ty = ret_ty.to_syn();
-                (quote!( -> #conv_ret_ty), quote! {})
+                let (_, ret_conversion) = callback_return_ty(ret_ty);
+                (quote!( -> #conv_ret_ty), ret_conversion)
             }
             None => (quote! {}, quote! {;}),
         };
